@@ -169,6 +169,8 @@ Examples:
 		if len(results) == 0 {
 			searchRecovery := recovery.NewSearchRecovery()
 			recoveredResults, recoveryErr := searchRecovery.RecoverFromSearchFailure(query, nil, db)
+			// Recovery strategies scan every command: apply the platform filters the user asked for
+			recoveredResults = database.FilterResults(recoveredResults, searchOptions)
 			if recoveryErr == nil && len(recoveredResults) > 0 {
 				// Recovery strategies scan the whole database; keep to the limit in force
 				if len(recoveredResults) > searchOptions.Limit {
